@@ -30,6 +30,25 @@ class Body:
         self._reach = None
         self.children = []
 
+    @classmethod
+    def from_raw(cls, raw, crate):
+        """a Body built from an already parsed (e.g. inlined) fact record"""
+        b = cls.__new__(cls)
+        b.text = json.dumps(raw)
+        b.name = raw["fn"]
+        b.kind = raw["kind"].split(" ")[0]
+        b.parent = raw["parent"]
+        b.crate = crate
+        b._raw = raw
+        b._defs = None
+        b._dbg = None
+        b._names = None
+        b._preds = None
+        b._mutref = None
+        b._reach = None
+        b.children = []
+        return b
+
     @property
     def raw(self):
         if self._raw is None:
@@ -82,7 +101,7 @@ class Body:
             return "%s:%d" % (sp["file"], sp["line"])
         st = self.blocks[bi]["stmts"]
         if st:
-            return "%s:%d" % (self.file, st[-1]["line"])
+            return "%s:%d" % (st[-1].get("file", self.file), st[-1]["line"])
         return "%s:%d" % (self.file, self.line)
 
     def local_name(self, l):
